@@ -55,12 +55,12 @@ Definition indent (s : string) : string := join nl (map (fun l => "  " ++ l) (sp
 
 (* ------------------------------------------------------------------ misc.IriExpander.Expand *)
 Definition in_range (lo hi : nat) (c : ascii) : bool := Nat.leb lo (nat_of_ascii c) && Nat.leb (nat_of_ascii c) hi.
-Definition prefix_char (c : ascii) : bool := in_range 97 122 c || in_range 65 90 c || in_range 48 57 c || Ascii.eqb c "-".
+Definition prefix_char (c : ascii) : bool := in_range 97 122 c || in_range 65 90 c || in_range 48 57 c || Ascii.eqb c "-" || Ascii.eqb c "_".
 Definition suffix_char (c : ascii) : bool :=
   prefix_char c || existsb (Ascii.eqb c) ["."; "("; "\"; "/"; ")"]%char.
 Fixpoint all_chars (p : ascii -> bool) (s : string) : bool :=
   match s with EmptyString => true | String c r => p c && all_chars p r end.
-(* ^[a-zA-Z-0-9\-]+\.[\.(\\/)a-zA-Z-0-9\-]+$ : the prefix has no dot, so the split is at the first dot *)
+(* ^[a-zA-Z-0-9\-_]+\.[\.(\\/)a-zA-Z-0-9\-_]+$ : the prefix has no dot, so the split is at the first dot *)
 Definition compact_parts (s : string) : option (string * string) :=
   match split_dot s with
   | Some (p, l) =>
